@@ -9,6 +9,7 @@ from .engine_k import Seams, SimRandom, bind, bootstrap, rel_close
 TOL_LOG = 1e-8
 TOL_P = 1e-9
 UNDERFLOW = -690.0
+TINY = 1e-300  # below this a double is (nearly) denormal: treated like an underflowed zero
 
 TOPOLOGIES = {
     # name: list of (parent_p, parent_q) with -1 unknown
@@ -490,13 +491,13 @@ class PedSim:
                     if px[al] > 1e-300:
                         self.viol("detailed_balance_ped_mh", "move into a zero-probability joint state has probability %g" % px[al], target=s, copy=k, allele=al, X=before)
                     continue
-                if px[al] <= 0.0:
+                if px[al] <= TINY:
                     theo = min(0.0, ly - lx) - math.log(nh - 1)
                     if theo > UNDERFLOW:
                         self.viol("detailed_balance_ped_mh", "forward probability 0, reference log p=%.3f" % theo, target=s, copy=k, allele=al, X=before)
                     continue
                 py = self._call_probs("mh", a, Y)
-                if py[cur] <= 0.0:
+                if py[cur] <= TINY:
                     theo = lx + math.log(px[al]) - ly
                     if theo > UNDERFLOW:
                         self.viol("detailed_balance_ped_mh", "reverse probability 0, reference log p=%.3f" % theo, target=s, copy=k, allele=al, X=before)
@@ -568,9 +569,9 @@ class PedSim:
                 if pa_f > 1e-300:
                     self.viol("detailed_balance_ped_swap", "swap into a zero-probability joint state accepted with probability %g" % pa_f, before=before, proposed=Y)
                 return pa, acc
-            if pa_f <= 0.0 or pb_f <= 0.0:
-                theo = (ly - lx) if pa_f <= 0.0 else (lx - ly)
-                if theo > UNDERFLOW and not (pa_f <= 0.0 and pb_f <= 0.0):
+            if pa_f <= TINY or pb_f <= TINY:
+                theo = (ly - lx) if pa_f <= TINY else (lx - ly)
+                if theo > UNDERFLOW and not (pa_f <= TINY and pb_f <= TINY):
                     self.viol("detailed_balance_ped_swap", "one direction of a swap has acceptance 0 (%g / %g), joint ratio exp(%.3f)" % (pa_f, pb_f, ly - lx),
                               before=before, proposed=Y)
                 return pa, acc
